@@ -120,4 +120,11 @@ def resumeM3 (C : Crypto) (prevShared eph : Bytes) (m2 : Items) : Option (Bytes 
             if plain ≠ [] then none
             else some (sid, C.hkdf prevShared (pk ++ sid) (str "Pair-Resume-Shared-Secret-Info") 32)
 
+/-- the resume branch of `get_session_keys` at M2: the state/error check runs first (`handle_state_step`), then
+    `resume_m3`; `.ok none` = fall through to the full exchange -/
+def verifyM2Resume (C : Crypto) (prevShared eph : Bytes) (m2 : Items) : Except VErr (Option (Bytes × Bytes)) :=
+  match handleStateStep m2 [2] with
+  | .error e => .error (.proto e)
+  | .ok () => .ok (resumeM3 C prevShared eph m2)
+
 end HapVerif.PairVerify
